@@ -9,6 +9,7 @@ exprs     terms of identical structure over independently built refs
 Oracle    structural path equality of the harness' own path tuples.
 """
 import itertools
+import unicodedata
 
 from hypothesis import strategies as st
 
@@ -23,11 +24,17 @@ RULE = ("pool of 20..50 paths per case (generated + derived near-misses), every 
 ASSUMPTIONS = [
     "cross-type equal keys (1 / 1.0 / True), str subclasses and non-identifier attribute names are outside the "
     "stated key space and never generated",
-    "hash inequality of different paths is NOT required (32-bit compiled hash collides by design); separation is "
-    "required through == and dict/set membership",
+    "hash inequality of ONE pair of different paths is not required (the compiled hash has 32 bits and collides by "
+    "design); separation is required through == and dict/set membership.  For a structured family of N distinct paths "
+    "at least 99 % distinct hash values are required (an ideal 32-bit hash gives > 99.99 % at N = 10^5): a hash under "
+    "which whole families collide systematically defeats the 'hash equally exactly when same path' clause at scale",
 ]
 
-IDENT = st.sampled_from(["a", "b", "x", "k1", "_p", "name", "ä", "ref", "d", "A"])
+# identifiers include names that are NOT stable under unicode NFKC normalisation next to their normal forms (micro sign /
+# greek mu, fi ligature / "fi", ohm sign / omega, e + combining acute / e-acute): getattr() does not normalise, so they
+# are different attributes and different paths
+IDENT = st.sampled_from(["a", "b", "x", "k1", "_p", "name", "ä", "ref", "d", "A",
+                         "\u00b5", "\u03bc", "\ufb01", "fi", "\u2126", "\u03a9", "e\u0301", "\u00e9", "\u017f", "s"])
 LABELS = st.sampled_from(["d", "e", "ref", "v", "_", "dd"])
 ADV_STR = st.one_of(
     st.sampled_from(["a", "b", "", " ", "a b", "a'b", 'a"b', "a'\"b", "a]", "['a']", "a']['b", "a'].b['c",
@@ -44,6 +51,9 @@ any_key = st.one_of(scalar_key, scalar_key, tuple_key)
 step = st.one_of(st.tuples(st.just("i"), any_key), st.tuples(st.just("i"), any_key),
                  st.tuples(st.just("a"), IDENT))
 path = st.tuples(LABELS, st.lists(step, min_size=1, max_size=4).map(tuple))
+
+
+UNSTABLE = {"\u03bc": ["\u00b5"], "fi": ["\ufb01"], "\u03a9": ["\u2126"], "\u00e9": ["e\u0301"], "s": ["\u017f"]}
 
 
 def key_ok(k):
@@ -120,6 +130,13 @@ def near_misses(p):
         else:
             out.append(repl(("i", k)))
             out.append(repl(("a", k + "_")))
+            for form in ("NFKC", "NFD", "NFC"):
+                kk = unicodedata.normalize(form, k)
+                if kk != k and kk.isidentifier():
+                    out.append(repl(("a", kk)))
+                    out.append(repl(("i", kk)))
+            for other in UNSTABLE.get(k, ()):
+                out.append(repl(("a", other)))
     # prefix / extension / other label
     if n > 1:
         out.append((label, steps[:-1]))
@@ -270,20 +287,29 @@ def run_pools(ctx):
 
 def run_family(ctx):
     """large families of similar keys in one dict / set"""
-    if ctx.shard not in (0, 1, 2, 3):
+    if ctx.shard not in range(9):
         return
     N = 100000 if ctx.shard < 2 else 30000
     b = Builder()
     r = b.root("d")
+    perm_keys = ["a", "b", 0, 1, -1, "k1", (0, 1), 0.5]
+    perms = list(itertools.permutations(perm_keys, 4))          # 1680 paths over the same multiset of steps, reordered
+    if ctx.shard == 4:
+        N = len(perms)
     fam = {
         0: lambda i: (("i", f"bend{i}"),),
         1: lambda i: (("i", "seq"), ("i", i), ("a", "k1")),
         2: lambda i: (("i", i - N // 2),),
         3: lambda i: (("i", (i % 300, i // 300)), ("i", "x")),
+        # structured families: the same steps in another order, a step applied twice, a grid of index pairs, the same
+        # key once as item and once as attribute - a hash that combines the steps commutatively collapses them
+        4: lambda i: tuple(("i", k) for k in perms[i]),
+        5: lambda i: (("i", i), ("i", i)) if i % 2 else (("i", f"q{i}"), ("i", f"q{i}")),
+        6: lambda i: (("i", "m"), ("i", i % 173), ("i", i // 173)),
+        7: lambda i: (("i", i), ("a", "k"), ("i", i)),
+        8: lambda i: (("a", f"n{i}"), ("i", f"n{i}")) if i % 2 else (("i", f"n{i}"), ("a", f"n{i}")),
     }[ctx.shard]
     refs = [b.ref(("d", fam(i))) for i in range(N)]
-    dct = {x: i for i, x in enumerate(refs)}
-    st_ = set(refs)
     hashes = {}
     coll = 0
     for i, x in enumerate(refs):
@@ -295,6 +321,15 @@ def run_family(ctx):
     ctx.stats.case(rep, True, ["family", "family:collisions>0" if coll else "family:no-collision"])
     ctx.stats.extra["family_refs"] = N
     ctx.stats.extra["family_hash_collisions"] = coll
+    ctx.stats.extra[f"family_{ctx.shard}_distinct_hash_fraction"] = round(len(hashes) / N, 6)
+    if len(hashes) < 0.99 * N:
+        ctx.fail(Failure("C06:family-hashes-collide-systematically",
+                         dict(rep, distinct_hash_values=len(hashes), required=int(0.99 * N))),
+                 {"kind": "family", "shard": ctx.shard})
+        return
+    # (the dict is built only now: with systematically colliding hashes it would take quadratic time)
+    dct = {x: i for i, x in enumerate(refs)}
+    st_ = set(refs)
     if len(dct) != N or len(st_) != N:
         ctx.fail(Failure("C06:family-conflated", dict(rep, dict_entries=len(dct), set_entries=len(st_))),
                  {"kind": "family", "shard": ctx.shard})
